@@ -36,8 +36,11 @@ ASSUMPTIONS = [
 ]
 
 KINDS = ["echo", "echo", "notify", "batch", "invalid", "boom", "slow", "boom-kw", "boomtype", "boomtype-kw", "echo-kw",
-         "abort-connect", "abort-headers", "abort-body", "abort-noread", "abort-noread-batch"]
+         "abort-connect", "abort-headers", "abort-body", "abort-noread", "abort-noread-batch", "abort-chunked", "abort-expect"]
 SERVERS = [("simple", None), ("pooled", None), ("pooled", 1), ("pooled", 2), ("pooled", 5)]
+
+
+_abstract_counter = itertools.count()
 
 
 class Workload(object):
@@ -55,6 +58,11 @@ class Workload(object):
         self.path = None
         if family == "tcp":
             addr, fam = ("127.0.0.1", 0), socket.AF_INET
+        elif family == "unix-abstract":
+            # Linux abstract namespace: no file behind the address (the library's client cannot
+            # name such an address - requests go through raw sockets)
+            self.path = "\0verif-c12-%d-%d" % (os.getpid(), next(_abstract_counter))
+            addr, fam = self.path, socket.AF_UNIX
         else:
             self.path = netpeer.unix_path("c12")
             addr, fam = self.path, socket.AF_UNIX
@@ -79,11 +87,19 @@ class Workload(object):
             with self.lock:
                 self.log.append(("mark", t))
 
+        self.executing = [0]
+
         def slow(t, ms=10):
-            time.sleep(ms / 1000.0)
             with self.lock:
-                self.log.append(("echo", t))
-            return t
+                self.executing[0] += 1
+            try:
+                time.sleep(ms / 1000.0)
+                with self.lock:
+                    self.log.append(("echo", t))
+                return t
+            finally:
+                with self.lock:
+                    self.executing[0] -= 1
 
         def boom(t):
             with self.lock:
@@ -102,7 +118,7 @@ class Workload(object):
         if family == "tcp":
             self.url = "http://127.0.0.1:%d" % srv.socket.getsockname()[1]
         else:
-            self.url = "unix+http://" + self.path
+            self.url = None if family == "unix-abstract" else "unix+http://" + self.path
 
     def serve(self):
         self.thread = threading.Thread(target=self.server.serve_forever, kwargs={"poll_interval": 0.01}, daemon=True, name="c12-serve")
@@ -140,10 +156,17 @@ def stop_server(w, served, label):
             w.pool.stop()
         fail(*KNOWN_HANG)
 
+    raised = []
+    pool0 = w.request_pool()
+    workers_before = list(pool0._threads) if pool0 is not None else []
+
     def closing():
-        if served:
-            w.server.shutdown()
-        w.server.server_close()
+        try:
+            if served:
+                w.server.shutdown()
+            w.server.server_close()
+        except Exception as ex:
+            raised.append(ex)
 
     try:
         call_with_watchdog(closing, 20 if served else 10, "stopping the server")
@@ -155,6 +178,9 @@ def stop_server(w, served, label):
                 fail(*KNOWN_HANG)
             fail("C12/stop-hangs:%s" % label, "stopping the server blocks in BaseServer.shutdown() while no thread is in serve_forever", {"stacks": h.stacks})
         raise Skip()   # R11: inconclusive slowness
+    if raised:
+        fail("C12/stop-raised:%s" % type(raised[0]).__name__, "stopping the server raised %s: %s (listening socket %s)" % (
+            type(raised[0]).__name__, raised[0], "still open" if w.server.socket.fileno() != -1 else "closed"))
     if w.thread is not None:
         w.thread.join(10)
         if w.thread.is_alive():
@@ -163,12 +189,16 @@ def stop_server(w, served, label):
         fail("C12/socket-left-open", "the listening socket is still open after server_close()")
     pool = w.request_pool()
     if pool is not None:
-        deadline = time.time() + 10
-        while time.time() < deadline and any(t.is_alive() for t in list(pool._threads)):
-            time.sleep(0.01)
-        alive = [t.name for t in list(pool._threads) if t.is_alive()]
+        # stop() joins its workers: when server_close() returns they have terminated and no request is
+        # being executed any more (a moment of grace for the interpreter's own thread bookkeeping)
+        workers = workers_before
+        executing = w.executing[0]
+        deadline = time.time() + 0.05
+        while time.time() < deadline and any(t.is_alive() for t in workers):
+            time.sleep(0.005)
+        alive = [t.name for t in workers if t.is_alive()]
         if alive or not pool._done_event.is_set():
-            fail("C12/pool-workers-alive", "request-pool workers still alive after server_close(): %r" % (alive,))
+            fail("C12/pool-workers-alive", "request-pool workers still alive after server_close() returned: %r (%d requests were still being executed)" % (alive, executing))
 
 
 def raw_connect(w):
@@ -195,6 +225,24 @@ def abort_request(w, k, tok):
         if k == "abort-headers":
             s.sendall(b"POST / HTTP/1.1\r\nHost: x\r\nContent-Le")
             return
+        if k == "abort-chunked":
+            # a chunked upload (no Content-Length) given up after its first chunk
+            data = b'{"jsonrpc": "2.0", "method"'
+            variant = sum(tok.encode()) % 3
+            piece = {0: b"%x\r\n" % len(data) + data + b"\r\n",            # a whole chunk, then nothing
+                     1: b"%x\r\n" % (len(data) + 9) + data,                 # inside a chunk
+                     2: b"%x\r\n" % len(data) + data + b"\r\n" + b"5"}[variant]   # inside the next chunk header
+            s.sendall(b"POST / HTTP/1.1\r\nHost: x\r\nContent-Type: application/json-rpc\r\nTransfer-Encoding: chunked\r\n\r\n" + piece)
+            return
+        if k == "abort-expect":
+            # announces a body, waits for '100 Continue' that may never come, and leaves
+            s.sendall(b"POST / HTTP/1.1\r\nHost: x\r\nContent-Type: application/json-rpc\r\nContent-Length: 40\r\nExpect: 100-continue\r\n\r\n")
+            try:
+                s.settimeout(0.05)
+                s.recv(100)
+            except OSError:
+                pass
+            return
         if k == "abort-noread-batch":
             body = json.dumps([{"jsonrpc": "2.0", "method": "slow", "params": ["abort-" + tok, 15], "id": i} for i in range(3)]).encode("utf-8")
         else:
@@ -210,9 +258,54 @@ def abort_request(w, k, tok):
         s.close()
 
 
+def raw_call(w, body):
+    """One HTTP exchange over a raw socket -> (status line, decoded JSON body or None)"""
+    s = raw_connect(w)
+    try:
+        data = body.encode("utf-8")
+        s.sendall(("POST / HTTP/1.0\r\nContent-Type: application/json-rpc\r\nContent-Length: %d\r\n\r\n" % len(data)).encode("ascii") + data)
+        chunks = []
+        while True:
+            b = s.recv(65536)
+            if not b:
+                break
+            chunks.append(b)
+    finally:
+        s.close()
+    head, _, payload = b"".join(chunks).partition(b"\r\n\r\n")
+    return head.split(b"\r\n")[0].decode("latin-1"), (json.loads(payload.decode("utf-8")) if payload else None)
+
+
+def raw_client_run(w, ci, kinds, errors, sent_marks, sent_echo):
+    """The subset of client_run a raw-socket client can do (listeners the library's client cannot address)"""
+    for j, k in enumerate(kinds):
+        tok = "c%d-r%d-%d" % (ci, j, os.getpid())
+        try:
+            if k.startswith("abort"):
+                abort_request(w, k, tok)
+            elif k == "notify":
+                sent_marks.append(tok)
+                status, out = raw_call(w, json.dumps({"jsonrpc": "2.0", "method": "mark", "params": [tok]}))
+                if out is not None:
+                    errors.append(("C12/crosstalk", "notification answered %r" % (out,)))
+            elif k == "invalid":
+                status, out = raw_call(w, '{"jsonrpc": "2.0", "method": 1, "id": "%s"' % tok)
+                if not isinstance(out, dict) or out.get("error", {}).get("code") != -32700:
+                    errors.append(("C12/invalid-body-reply", "invalid body answered %r" % (out,)))
+            else:
+                sent_echo.append(tok)
+                status, out = raw_call(w, json.dumps({"jsonrpc": "2.0", "id": tok, "method": "echo", "params": [tok]}))
+                if not isinstance(out, dict) or out.get("result") != tok or out.get("id") != tok:
+                    errors.append(("C12/crosstalk", "client %d sent %r and received %r" % (ci, tok, out)))
+        except Exception as ex:
+            errors.append(("C12/request-failed:%s" % type(ex).__name__, "raw client %d request %d (%s) failed: %s: %s" % (ci, j, k, type(ex).__name__, str(ex)[:120])))
+
+
 def client_run(w, ci, kinds, errors, sent_marks, sent_echo, timeout=30, sent_boom=None):
     from jsonrpclib import jsonrpc as J
 
+    if w.url is None:
+        return raw_client_run(w, ci, kinds, errors, sent_marks, sent_echo)
     sent_boom = sent_boom if sent_boom is not None else []
     p = J.ServerProxy(w.url)
     try:
@@ -280,7 +373,7 @@ def client_run(w, ci, kinds, errors, sent_marks, sent_echo, timeout=30, sent_boo
 def workload_cases(draw):
     kind, pool = draw(st.sampled_from(SERVERS))
     clients = draw(st.lists(st.lists(st.sampled_from(KINDS), min_size=1, max_size=6), min_size=1, max_size=8))
-    return {"kind": kind, "pool": pool, "family": draw(st.sampled_from(["tcp", "unix"])), "clients": clients}
+    return {"kind": kind, "pool": pool, "family": draw(st.sampled_from(["tcp", "tcp", "unix", "unix", "unix-abstract"])), "clients": clients}
 
 
 def oracle_workload(case):
@@ -304,7 +397,12 @@ def oracle_workload(case):
     hung = [i for i, t in enumerate(threads) if t.is_alive()]
     serving = w.thread is not None and w.thread.is_alive()
     # give pooled notifications (inline anyway) a moment; then stop
-    stop_server(w, True, "after-workload")
+    try:
+        stop_server(w, True, "after-workload")
+    except Skip:
+        if not hung:
+            raise
+        # the server could not be stopped in time either: the clients' verdict stands
     if hung:
         if not serving:
             fail("C12/serve-forever-died", "serve_forever ended by itself during the workload; clients %r were never answered" % (hung,))
@@ -348,7 +446,7 @@ LIFECYCLES = ["close-only", "serve-shutdown-close", "serve-requests-shutdown-clo
 @st.composite
 def lifecycle_cases(draw):
     kind, pool = draw(st.sampled_from(SERVERS))
-    return {"kind": kind, "pool": pool, "family": draw(st.sampled_from(["tcp", "unix"])), "life": draw(st.sampled_from(LIFECYCLES)),
+    return {"kind": kind, "pool": pool, "family": draw(st.sampled_from(["tcp", "unix", "unix-abstract"])), "life": draw(st.sampled_from(LIFECYCLES)),
             "slow_ms": draw(st.sampled_from([5, 20, 30])), "n": draw(st.integers(1, 4))}
 
 
@@ -432,10 +530,18 @@ def oracle_lifecycle(case):
         results = []
 
         def slow_client(i):
-            p = J.ServerProxy(w.url)
             tok = "inflight-%d-%d" % (i, os.getpid())
+            if w.url is None:
+                try:
+                    out = raw_call(w, json.dumps({"jsonrpc": "2.0", "id": 1, "method": "slow", "params": [tok, case["slow_ms"] * (1 + 2 * i)]}))[1]
+                    results.append((tok, out.get("result") if isinstance(out, dict) else out))
+                except Exception as ex:
+                    results.append((tok, ex))
+                return
+            p = J.ServerProxy(w.url)
             try:
-                results.append((tok, p.slow(tok, case["slow_ms"])))
+                # requests of different lengths: the one joined first is not the last to finish
+                results.append((tok, p.slow(tok, case["slow_ms"] * (1 + 2 * i))))
             except Exception as ex:
                 results.append((tok, ex))
             finally:
@@ -451,7 +557,7 @@ def oracle_lifecycle(case):
         time.sleep(case["slow_ms"] / 4000.0)
         stop_server(w, True, life)
         for t in ts:
-            t.join(5)
+            t.join(10)
         for tok, r in results:
             if not isinstance(r, Exception) and r != tok:
                 fail("C12/crosstalk", "in-flight request %r returned %r" % (tok, r))
